@@ -226,7 +226,10 @@ InplaceCases == LET ps == SetToSeq(InplacePairs) IN
   [k \in 1..(2 * Len(ps)) |-> LET pr == ps[(k + 1) \div 2]  ip == (k + 1) % 2 IN pr[2][ip] @@ [akey |-> pr[1], acode |-> 1, aid |-> (k + 1) \div 2, alias |-> ip]]
 
 Keep == IF "KEEP" \in DOMAIN IOEnv THEN atoi(IOEnv.KEEP) ELSE 1        \* keep one history out of KEEP (rotated by SEED)
-Thinned(sq) == LET sel == SelectSeq([i \in 1..Len(sq) |-> i], LAMBDA i : (i + Seed) % Keep = 0 /\ i % NShards = Shard) IN [k \in 1..Len(sel) |-> sq[sel[k]]]
+\* pseudo-random (not strided: a stride correlates with the enumeration order of the descriptor tuples and would systematically
+\* drop whole classes, e.g. every history in which the two flags differ)
+Mix(i) == (((i * 7919 + Seed * 104729 + 12345) % 1000003) * 31 + i) % 1000003
+Thinned(sq) == LET sel == SelectSeq([i \in 1..Len(sq) |-> i], LAMBDA i : Mix(i) % Keep = 0 /\ i % NShards = Shard) IN [k \in 1..Len(sel) |-> sq[sel[k]]]
 Cases == CASE Family = "deleg" -> LET ds == Thinned(SetToSeq(DelegDescs) \o SetToSeq(ChainDescs)) IN [k \in 1..Len(ds) |-> BuildDeleg(ds[k])]
            [] Family = "neg" -> Thinned(SetToSeq(NegCases(1)))
            [] Family = "sig" -> Thinned(SetToSeq(SigCases))
